@@ -120,6 +120,7 @@ func (e *c13Env) context(data int) *plush.Context {
 	c.Set("m3", map[string]int{"a": 1, "b": 2, "c": 3})
 	c.Set("d", data)
 	c.Set("animal", c13Animals[data%2])
+	c.Set("deep", true)
 	// a time value; only the odd data sets choose a format of their own for it
 	c.Set("when", time.Date(2021, 3, 4, 5, 6, 7, 0, time.UTC))
 	if data%2 == 1 {
@@ -132,6 +133,8 @@ func (e *c13Env) context(data int) *plush.Context {
 			return `[<%= a %><%= b %><%= c %>]`, nil
 		case "lay":
 			return `L(<%= yield %>)`, nil
+		case "self":
+			return c13SelfPartial, nil
 		case "pdyn":
 			// the application's feeder may serve different partial text to different contexts
 			return fmt.Sprintf("dyn%d:<%%= d %%>", data), nil
@@ -154,8 +157,13 @@ func (c13Cat) Name() string  { return "cat-name" }
 var c13Animals = []interface{}{c13Dog{}, c13Cat{}}
 
 // c13Family: hash literals with side-effecting values and duplicate keys, map loops, data maps.
+// c13SelfPartial renders itself as a partial (one level): with the cache on, the outer and the inner
+// execution run the very same parsed program, and the inner one fails inside a helper's block.
+const c13SelfPartial = "<%= if (deep) { %>\n\n\n<%= partial(\"self\", {\"deep\": false}) %><% } else { %><%= blk() { %>\n<%= nope %><% } %><% } %>"
+
 func c13Family() []string {
 	out := []string{
+		c13SelfPartial,
 		// the printed form of a time depends on the context's TIME_FORMAT only, never on earlier renders
 		`<%= when %>;<%= [when][0] %>`,
 	}
@@ -241,7 +249,7 @@ func init() {
 			return s
 		},
 		Run:  c13Run,
-		Rule: "programs: a 35-template corpus covering every construct + a family of hash literals (1..4 entries, identifier/string/duplicate keys, side-effecting values), map loops, data maps, method calls on receivers of two dynamic types, a time value printed with and without a TIME_FORMAT in the context, empty array/hash literals that are kept and written to, failing templates and templates that do not parse. (paths) every program x 2 data sets: fresh parse, 3 repeated executions of one parsed template, Clone, cache cold, cache warm, cache off again — all (out, err, side-effect log) equal; deep structural hash (reflection over every field, cycle-safe) of the parsed program equal before and after every execution. (env) every map-iteration call made during an execution is an environment choice point (runtime overlay): all single deviations (two in thorough) from the default order give the same (out, err, log); for-over-map output is compared as a multiset. (hist) explicit enumeration of histories over {fresh parse+exec, exec of a long-lived template, Clone+exec, Render through the cache, toggle CacheEnabled, CacheSet} x 6 templates (a partial whose feeder text depends on the context, ok with an empty hash literal that is written to, failing inside a block on line 3, failing at top level, method call, one that does not parse) x 2 data sets, from a cold and a warm cache; after every operation the result equals the pristine reference for (text, data), every live template's program hash is unchanged and a cached template was parsed from its key. Non-trivial: histories with >=2 operations / programs with a map or side effect.",
+		Rule: "programs: a 35-template corpus covering every construct + a family of hash literals (1..4 entries, identifier/string/duplicate keys, side-effecting values), map loops, data maps, method calls on receivers of two dynamic types, a time value printed with and without a TIME_FORMAT in the context, a template that renders itself as a partial and fails inside a helper block of the inner execution, empty array/hash literals that are kept and written to, failing templates and templates that do not parse. (paths) every program x 2 data sets: fresh parse, 3 repeated executions of one parsed template, Clone, cache cold, cache warm, cache off again — all (out, err, side-effect log) equal; deep structural hash (reflection over every field, cycle-safe) of the parsed program equal before and after every execution. (env) every map-iteration call made during an execution is an environment choice point (runtime overlay): all single deviations (two in thorough) from the default order give the same (out, err, log); for-over-map output is compared as a multiset. (hist) explicit enumeration of histories over {fresh parse+exec, exec of a long-lived template, Clone+exec, Render through the cache, toggle CacheEnabled, CacheSet} x 6 templates (a partial whose feeder text depends on the context, ok with an empty hash literal that is written to, failing inside a block on line 3, failing at top level, method call, one that does not parse) x 2 data sets, from a cold and a warm cache; after every operation the result equals the pristine reference for (text, data), every live template's program hash is unchanged and a cached template was parsed from its key. Non-trivial: histories with >=2 operations / programs with a map or side effect.",
 		Bound: func(th bool) string {
 			if th {
 				return "histories of length <=4 over the full 56-operation alphabet; all pairs of map-order deviations"
